@@ -140,3 +140,47 @@ class Suite:
     def done(self):
         self.check.add_suite(self.name, self.evaluations, len(self.nontrivial), self.rule, self.samples,
                              exhaustive=self.exhaustive, bound=self.bound)
+
+
+# ------------------------------------------------------------------------------------------------ interrupted observations
+class Aborted(BaseException):
+    """what an asynchronous interruption of library code looks like (KeyboardInterrupt from the SIGINT handler, MemoryError,
+    RecursionError): raised by a trace function at the k-th executed line of curtsies code"""
+
+
+def run_interrupted(fn, k):
+    """run fn() and abort it at the k-th line event inside curtsies code; -> ("finished", lines executed) | ("aborted", k).
+    The abort is an exception no library code catches (BaseException subclass)."""
+    import sys
+    count = [0]
+    root = os.path.dirname(os.path.abspath(sys.modules["curtsies"].__file__))
+
+    def tracer(frame, event, arg):
+        if not frame.f_code.co_filename.startswith(root):
+            return None
+        if event == "line":
+            count[0] += 1
+            if count[0] == k:
+                raise Aborted()
+        return tracer
+
+    old = sys.gettrace()
+    sys.settrace(tracer)
+    try:
+        fn()
+        return "finished", count[0]
+    except Aborted:
+        return "aborted", k
+    finally:
+        sys.settrace(old)
+
+
+def interrupted_then(build, observe, judge, max_k=400):
+    """for every k: a fresh value, `observe` aborted at its k-th line, then judge(value) (which observes again, uninterrupted);
+    yields (k, verdict) for every abort point; stops at the first k at which observe finishes"""
+    for k in range(1, max_k + 1):
+        v = build()
+        how, _ = run_interrupted(lambda: observe(v), k)
+        if how == "finished":
+            return
+        yield k, judge(v)
